@@ -9,8 +9,8 @@ Definition Tid (c : tconf) (d : bytes) : option bytes := Some d.
 Definition Tip (c : tconf) (d : bytes) : option bytes := if t_inplace c then Some d else Some [].
 Definition Thead (c : tconf) (d : bytes) : option bytes := Some (ntake 1 d).
 
-Definition ask (p pos len : N) : prog unit := Call (mkC p pos len false) (fun _ => Ret tt).
-Definition probe (p pos len : N) : prog result := Call (mkC p pos len false) (fun r => Ret r).
+Definition ask (p pos len : N) : prog unit := Call (mkC p pos len IoOk) (fun _ => Ret tt).
+Definition probe (p pos len : N) : prog result := Call (mkC p pos len IoOk) (fun r => Ret r).
 Definition id7 : fid := (1, 7).
 
 (* what a check of the property observes: the answer of a cached run after history h vs the uncached one *)
@@ -33,7 +33,7 @@ Proof.
   split; [apply mtime_determines_b_sound; vm_compute; reflexivity|].
   split; [intros a c [E|[E|[]]]; discriminate E|].
   split; [intros a1 c1 a2 c2 [E|[E|[]]]; discriminate E|].
-  split; [cbn [probe nofail c_fail]; auto|].
+  split; [cbn [probe nofail c_io]; auto|].
   split.
   - intros Hp.
     specialize (Hp (mkW [(id7, mkI [97] (-5000000000)%Z)] [(1, id7)]) id7 (mkI [97] (-5000000000)%Z)).
@@ -57,7 +57,7 @@ Proof.
   split; [apply mtime_determines_b_sound; vm_compute; reflexivity|].
   split; [apply preepoch_b_sound; vm_compute; reflexivity|].
   split; [intros a c [E|[E|[]]]; injection E as _ <-; vm_compute; intros E; discriminate E|].
-  split; [cbn [probe nofail c_fail]; auto|].
+  split; [cbn [probe nofail c_io]; auto|].
   split; [split; [reflexivity|vm_compute; intros E; discriminate E]|].
   vm_compute. intros E. discriminate E.
 Qed.
@@ -77,7 +77,7 @@ Proof.
   split; [apply mtime_determines_b_sound; vm_compute; reflexivity|].
   split; [apply preepoch_b_sound; vm_compute; reflexivity|].
   split; [intros a1 c1 a2 c2 I1 I2 _ d; reflexivity|].
-  split; [cbn [probe nofail c_fail]; auto|].
+  split; [cbn [probe nofail c_io]; auto|].
   split; [reflexivity|].
   vm_compute. intros E. discriminate E.
 Qed.
@@ -146,7 +146,7 @@ Definition hSwitch : list event :=
   [EvEdit (ECreate 1 id7 [97; 98; 99; 100] 5000000%Z); EvEdit (ELink 1 3);
    EvRun 0 None (ask 1 0 2);                                   (* interrupted after the prefix *)
    EvLose (fun _ _ _ => false);                                (* ... and its entry never reached the disk *)
-   EvRun 0 None (Call (mkC 1 0 2 false) (fun _ => ask 3 0 4));
+   EvRun 0 None (Call (mkC 1 0 2 IoOk) (fun _ => ask 3 0 4));
    EvRun 2 None (ask 1 0 4);
    EvRun 0 (Some (mkT [99; 97; 116] false false)) (ask 1 0 4);
    EvEdit (EAppend 1 [101] 6000000%Z); EvEdit (ETruncate 3 2 7000000%Z); EvEdit (ETouch 1 8000000%Z)].
